@@ -71,6 +71,26 @@ def run(ctx):
     ev3 = engine.run_items_grouped(ctx, ditems, coq_file_fn=D.coq_cases_file_deep, chunk=6) and ev3
     for it in ditems:
         it.scenario = D.strip(it.scenario)
+    # (e) per-file uniqueness: a native checkpoint repeating the composite of an imported checkpoint that a connection
+    # targets (implementation against its own verdict on the sibling without the repetition)
+    import impl
+    twins = I.per_file_uniqueness_twins(rng, 6 * scale)
+    pool = impl.Pool(ctx)
+    tw_rejected = 0
+    for k, (case, twin, info) in enumerate(twins):
+        sp = ["id", "alias", "mixed"][k % 3]
+        seed = rng.randrange(1 << 30)
+        d0 = I.render_i(case, ctx.repo_copy, random.Random(seed), sp, False, False)
+        d1 = I.render_i(twin, ctx.repo_copy, random.Random(seed), sp, False, False)
+        r0, r1 = pool.validate_many([d0, d1])
+        if r0["outcome"] == "accept" and r1["outcome"] != "accept":
+            tw_rejected += 1
+            if tw_rejected <= 2:
+                ctx.violation({"what": "a conformant importing document is rejected: a native checkpoint repeats gate type and dependencies of an imported checkpoint that a connection targets (uniqueness is per schema file; the sibling without the repetition is accepted)",
+                               "document": d1, "errors": r1.get("errors"), "exc": r1.get("exc"), "sibling_document": d0, "spelling": sp, "detail": info,
+                               "imported_files": {imp["file"]: json.load(open(os.path.join(ctx.repo_copy, "schemas", imp["file"] + ".json"))) for imp in twin["imports"] if imp.get("file")}})
+    pool.close()
+    ctx.coverage["per_file_uniqueness_twins"] = {"pairs": len(twins), "twin_rejected": tw_rejected}
     allitems = items + pitems + iitems + ditems
     engine.report(ctx, allitems, "T3 correspondence: a scenario the executable specification accepts is not accepted by the implementation (or vice versa)")
     ctx.coverage.update({
